@@ -1,21 +1,23 @@
 import Emboss.Lemmas.TypesIff
 namespace Emboss.Types
 
-/-- `x` is the source location of `e` or of a sub-expression of `e` (looking through
-references to virtual fields, whose definitions are re-checked through the reference). -/
-inductive LocIn (x : Loc) : Expr → Prop
-  | here {e} : x = e.loc → LocIn x e
-  | cvirt {l d} : LocIn x d → LocIn x (.cvirt l d)
-  | lvirt {l d} : LocIn x d → LocIn x (.lvirt l d)
-  | binL {l op a b} : LocIn x a → LocIn x (.bin l op a b)
-  | binR {l op a b} : LocIn x b → LocIn x (.bin l op a b)
-  | chC {l c t f} : LocIn x c → LocIn x (.choice l c t f)
-  | chT {l c t f} : LocIn x t → LocIn x (.choice l c t f)
-  | chF {l c t f} : LocIn x f → LocIn x (.choice l c t f)
-  | arg {l f args a} : a ∈ args → LocIn x a → LocIn x (.fn l f args)
+/-- `(x, xf)` — a source location and a file name — is where `e`, written in module
+`file`, or one of the things `e` is built from is written: the location of a
+sub-expression together with `file`, or (looking through a reference to a virtual field
+of module `df`) a location inside that field's definition together with `df`. -/
+inductive LocIn (x : Loc) (xf : FileId) : FileId → Expr → Prop
+  | here {file e} : x = e.loc → xf = file → LocIn x xf file e
+  | cvirt {file l df d} : LocIn x xf df d → LocIn x xf file (.cvirt l df d)
+  | lvirt {file l df d} : LocIn x xf df d → LocIn x xf file (.lvirt l df d)
+  | binL {file l op a b} : LocIn x xf file a → LocIn x xf file (.bin l op a b)
+  | binR {file l op a b} : LocIn x xf file b → LocIn x xf file (.bin l op a b)
+  | chC {file l c t f} : LocIn x xf file c → LocIn x xf file (.choice l c t f)
+  | chT {file l c t f} : LocIn x xf file t → LocIn x xf file (.choice l c t f)
+  | chF {file l c t f} : LocIn x xf file f → LocIn x xf file (.choice l c t f)
+  | arg {file l f args a} : a ∈ args → LocIn x xf file a → LocIn x xf file (.fn l f args)
 
-theorem fnArgErrs_loc (f : Fn) : ∀ (i : Nat) (args : List Expr) (tys : List Ty),
-    ∀ er ∈ fnArgErrs f i args tys, ∃ a ∈ args, er.l = a.loc
+theorem fnArgErrs_loc (file : FileId) (f : Fn) : ∀ (i : Nat) (args : List Expr) (tys : List Ty),
+    ∀ er ∈ fnArgErrs file f i args tys, ∃ a ∈ args, er.l = a.loc ∧ er.file = file ∧ er.notes = []
   | _, [], _, er, h => by simp [fnArgErrs] at h
   | _, _ :: _, [], er, h => by simp [fnArgErrs] at h
   | i, a :: as, t :: ts, er, h => by
@@ -23,78 +25,81 @@ theorem fnArgErrs_loc (f : Fn) : ∀ (i : Nat) (args : List Expr) (tys : List Ty
     rcases h with h | h
     · refine ⟨a, by simp, ?_⟩
       cases f <;> simp only [argErr] at h <;> split at h <;> simp_all [err]
-    · obtain ⟨a', ha', h'⟩ := fnArgErrs_loc f (i + 1) as ts er h
+    · obtain ⟨a', ha', h'⟩ := fnArgErrs_loc file f (i + 1) as ts er h
       exact ⟨a', by simp [ha'], h'⟩
 
-theorem bin_errs {l op a b} {er : Err} (h : er ∈ (tc (.bin l op a b)).errs) :
-    er ∈ (tc a).errs ∨ er ∈ (tc b).errs ∨ er.l = a.loc ∨ er.l = b.loc ∨ er.l = l := by
+theorem bin_errs {file l op a b} {er : Err} (h : er ∈ (tc file (.bin l op a b)).errs) :
+    er ∈ (tc file a).errs ∨ er ∈ (tc file b).errs ∨
+      (er.file = file ∧ er.notes = [] ∧ (er.l = a.loc ∨ er.l = b.loc ∨ er.l = l)) := by
   simp only [tc] at h
   repeat' split at h
   all_goals simp only [List.mem_append, List.mem_singleton, argErr, err] at h
   all_goals grind
 
-theorem choice_errs {l c t f} {er : Err} (h : er ∈ (tc (.choice l c t f)).errs) :
-    er ∈ (tc c).errs ∨ er ∈ (tc t).errs ∨ er ∈ (tc f).errs ∨ er.l = c.loc ∨ er.l = t.loc ∨ er.l = l := by
+theorem choice_errs {file l c t f} {er : Err} (h : er ∈ (tc file (.choice l c t f)).errs) :
+    er ∈ (tc file c).errs ∨ er ∈ (tc file t).errs ∨ er ∈ (tc file f).errs ∨
+      (er.file = file ∧ er.notes = [] ∧ (er.l = c.loc ∨ er.l = t.loc ∨ er.l = l)) := by
   simp only [tc] at h
   repeat' split at h
   all_goals simp only [List.mem_append, List.mem_singleton, err] at h
   all_goals grind
 
 mutual
-theorem tc_loc (e : Expr) : ∀ er ∈ (tc e).errs, LocIn er.l e :=
+theorem tc_loc (e : Expr) : ∀ (file : FileId), ∀ er ∈ (tc file e).errs, LocIn er.l er.file file e :=
   match e with
-  | .num _ | .boolc _ | .enumv _ _ | .cother _ | .lparam _ _ | .lparamArr _ | .lphys _ _ | .builtin _ _ => by
-    intro er h; simp [tc, Res.pure] at h
-  | .cphys l dl => by
-    intro er h; simp [tc] at h; subst h; exact .here rfl
-  | .cvirt l d => by
-    intro er h; simp only [tc] at h; exact .cvirt (tc_loc d er h)
-  | .lvirt l d => by
-    intro er h
-    simp only [tc] at h
-    split at h
-    · exact .lvirt (tc_loc d er h)
-    · simp only [List.mem_map] at h
-      obtain ⟨e0, h0, rfl⟩ := h
-      exact .lvirt (tc_loc d e0 h0)
+  | .num _ | .boolc _ | .enumv _ _ | .lparam _ _ | .lparamArr _ | .lphys _ _ => by
+    intro file er h; simp [tc, Res.pure] at h
+  | .cother l => by
+    intro file er h; simp [tc, err] at h; subst h; exact .here rfl rfl
+  | .builtin l b => by
+    intro file er h
+    cases b <;> simp [tc, Res.pure, err] at h
+    subst h; exact .here rfl rfl
+  | .cphys l df dl => by
+    intro file er h; simp [tc] at h; subst h; exact .here rfl rfl
+  | .cvirt l df d => by
+    intro file er h; simp only [tc] at h; exact .cvirt (tc_loc d df er h)
+  | .lvirt l df d => by
+    intro file er h; simp only [tc] at h; exact .lvirt (tc_loc d df er h)
   | .bin l op a b => by
-    intro er h
-    rcases bin_errs h with h | h | h | h | h
-    · exact .binL (tc_loc a _ h)
-    · exact .binR (tc_loc b _ h)
-    · exact .binL (.here h)
-    · exact .binR (.here h)
-    · exact .here h
+    intro file er h
+    rcases bin_errs h with h | h | ⟨hf, _, h | h | h⟩
+    · exact .binL (tc_loc a file _ h)
+    · exact .binR (tc_loc b file _ h)
+    · exact .binL (.here h hf)
+    · exact .binR (.here h hf)
+    · exact .here h hf
   | .choice l c t f => by
-    intro er h
-    rcases choice_errs h with h | h | h | h | h | h
-    · exact .chC (tc_loc c _ h)
-    · exact .chT (tc_loc t _ h)
-    · exact .chF (tc_loc f _ h)
-    · exact .chC (.here h)
-    · exact .chT (.here h)
-    · exact .here h
+    intro file er h
+    rcases choice_errs h with h | h | h | ⟨hf, _, h | h | h⟩
+    · exact .chC (tc_loc c file _ h)
+    · exact .chT (tc_loc t file _ h)
+    · exact .chF (tc_loc f file _ h)
+    · exact .chC (.here h hf)
+    · exact .chT (.here h hf)
+    · exact .here h hf
   | .fn l f args => by
-    intro er h
-    have ih := tcList_loc args
+    intro file er h
+    have ih := tcList_loc args file
     simp only [tc, List.mem_append] at h
     rcases h with (h | h) | h
     · obtain ⟨a, ha, h'⟩ := ih er h
       exact .arg ha h'
-    · obtain ⟨a, ha, h'⟩ := fnArgErrs_loc f 0 args _ er h
-      exact .arg ha (.here h')
+    · obtain ⟨a, ha, h', hf, _⟩ := fnArgErrs_loc file f 0 args _ er h
+      exact .arg ha (.here h' hf)
     · split at h
       · simp at h
-      · simp only [List.mem_singleton] at h; subst h; exact .here rfl
-theorem tcList_loc (es : List Expr) : ∀ er ∈ (tcList es).errs, ∃ a ∈ es, LocIn er.l a :=
+      · simp only [List.mem_singleton] at h; subst h; exact .here rfl rfl
+theorem tcList_loc (es : List Expr) : ∀ (file : FileId), ∀ er ∈ (tcList file es).errs,
+    ∃ a ∈ es, LocIn er.l er.file file a :=
   match es with
-  | [] => by intro er h; simp [tcList] at h
+  | [] => by intro file er h; simp [tcList] at h
   | e :: es => by
-    intro er h
+    intro file er h
     simp only [tcList, List.mem_append] at h
     rcases h with h | h
-    · exact ⟨e, by simp, tc_loc e er h⟩
-    · obtain ⟨a, ha, h'⟩ := tcList_loc es er h
+    · exact ⟨e, by simp, tc_loc e file er h⟩
+    · obtain ⟨a, ha, h'⟩ := tcList_loc es file er h
       exact ⟨a, by simp [ha], h'⟩
 end
 
